@@ -260,6 +260,131 @@ Proof.
   exists (mk_report [mk_violation [116] L_ERROR [97] 5 0]). vm_compute. discriminate.
 Qed.
 
+(* ---- cross-references inside the sarif document (seed round 3) ---- *)
+
+Definition sarif_ref_inv (d : sarif_doc) : Prop :=
+  forall x, In x (sd_results d) ->
+    (exists i ru, sr_index x = Some (N.of_nat i) /\ nth_error (sd_rules d) i = Some ru /\ sru_id ru = sr_rule x) /\
+    sarif_artifact_ref_ok (sd_artifacts d) x = true.
+
+Lemma upsert_keeps_ids id upd (Hupd : forall x, sru_id (upd x) = sru_id x) : forall rules i ru,
+  nth_error rules i = Some ru ->
+  exists ru', nth_error (upsert_rule id upd rules) i = Some ru' /\ sru_id ru' = sru_id ru.
+Proof.
+  induction rules as [|y rules IH]; intros i ru Hn.
+  - destruct i; discriminate.
+  - cbn [upsert_rule]. destruct (str_eqb (sru_id y) id) eqn:Hy.
+    + destruct i as [|i]; cbn in *.
+      * inversion Hn; subst. eexists; split; [reflexivity | apply Hupd].
+      * eexists; split; [exact Hn | reflexivity].
+    + destruct i as [|i]; cbn in *.
+      * eexists; split; [exact Hn | reflexivity].
+      * apply IH; assumption.
+Qed.
+
+Lemma rule_index_upsert id upd (Hupd : forall x, sru_id (upd x) = sru_id x) : forall rules k,
+  exists i ru, rule_index id (upsert_rule id upd rules) k = Some (k + N.of_nat i) /\
+               nth_error (upsert_rule id upd rules) i = Some ru /\ sru_id ru = id.
+Proof.
+  induction rules as [|y rules IH]; intros k.
+  - exists 0%nat. eexists. cbn [upsert_rule rule_index nth_error]. rewrite Hupd. cbn [sru_id].
+    rewrite str_eqb_refl. repeat split; [f_equal; lia | apply Hupd].
+  - cbn [upsert_rule]. destruct (str_eqb (sru_id y) id) eqn:Hy.
+    + exists 0%nat, (upd y). cbn [rule_index nth_error]. rewrite Hupd, Hy.
+      repeat split; [f_equal; lia | apply str_eqb_eq; exact Hy].
+    + destruct (IH (k + 1)) as (i & ru & Hr & Hn & Hid).
+      exists (S i), ru. cbn [rule_index nth_error]. rewrite Hy. repeat split; try assumption.
+      rewrite Hr. f_equal. lia.
+Qed.
+
+Lemma add_distinct_keeps u arts a : str_in a arts = true -> str_in a (add_distinct u arts) = true.
+Proof.
+  unfold add_distinct. destruct (str_in u arts); [tauto|].
+  intros H. apply str_in_spec. apply in_or_app. left. apply str_in_spec. exact H.
+Qed.
+
+Lemma add_distinct_has u arts : str_in u (add_distinct u arts) = true.
+Proof.
+  unfold add_distinct. destruct (str_in u arts) eqn:H; [exact H|].
+  apply str_in_spec. apply in_or_app. right. left. reflexivity.
+Qed.
+
+Lemma sarif_violation_step_inv d v : sarif_ref_inv d -> sarif_ref_inv (sarif_violation_step d v).
+Proof.
+  intros Hinv x Hx. unfold sarif_violation_step in *. cbn [sd_results sd_rules sd_artifacts] in *.
+  set (upd := fun x0 : sarif_rule => {| sru_id := sru_id x0; sru_desc := v_desc v;
+                                         sru_help := Some (doc_url v); sru_cat := v_cat v |}) in *.
+  assert (Hupd : forall x0, sru_id (upd x0) = sru_id x0) by reflexivity.
+  apply in_app_or in Hx. destruct Hx as [Hx | [Hx | []]].
+  - destruct (Hinv x Hx) as ((i & ru & Hi & Hn & Hid) & Ha). split.
+    + destruct (upsert_keeps_ids (v_title v) upd Hupd _ _ _ Hn) as (ru' & Hn' & Hid').
+      exists i, ru'. repeat split; [exact Hi | exact Hn' | congruence].
+    + unfold sarif_artifact_ref_ok in *. destruct (sr_loc x) as [[uri g]|]; [|reflexivity].
+      apply add_distinct_keeps. exact Ha.
+  - subst x. cbn [sr_index sr_rule sr_loc]. split.
+    + destruct (rule_index_upsert (v_title v) upd Hupd (sd_rules d) 0) as (i & ru & Hr & Hn & Hid).
+      exists i, ru. repeat split; [rewrite Hr; f_equal; lia | exact Hn | exact Hid].
+    + unfold sarif_artifact_ref_ok. cbn [sr_loc]. apply add_distinct_has.
+Qed.
+
+Lemma sarif_notice_step_inv d n : sarif_ref_inv d -> sarif_ref_inv (sarif_notice_step d n).
+Proof.
+  intros Hinv. unfold sarif_notice_step. destruct (str_eqb (n_sev n) S_NONE); [exact Hinv|].
+  intros x Hx. cbn [sd_results sd_rules sd_artifacts] in *.
+  set (upd := fun x0 : sarif_rule => {| sru_id := sru_id x0; sru_desc := n_desc n;
+                                         sru_help := sru_help x0; sru_cat := n_cat n |}) in *.
+  assert (Hupd : forall x0, sru_id (upd x0) = sru_id x0) by reflexivity.
+  apply in_app_or in Hx. destruct Hx as [Hx | [Hx | []]].
+  - destruct (Hinv x Hx) as ((i & ru & Hi & Hn & Hid) & Ha). split; [|exact Ha].
+    destruct (upsert_keeps_ids (n_title n) upd Hupd _ _ _ Hn) as (ru' & Hn' & Hid').
+    exists i, ru'. repeat split; [exact Hi | exact Hn' | congruence].
+  - subst x. cbn [sr_index sr_rule sr_loc]. split; [|reflexivity].
+    destruct (rule_index_upsert (n_title n) upd Hupd (sd_rules d) 0) as (i & ru & Hr & Hn & Hid).
+    exists i, ru. repeat split; [rewrite Hr; f_equal; lia | exact Hn | exact Hid].
+Qed.
+
+Lemma sarif_ref_inv_fold {A} (step : sarif_doc -> A -> sarif_doc)
+  (Hstep : forall d a, sarif_ref_inv d -> sarif_ref_inv (step d a)) :
+  forall l d, sarif_ref_inv d -> sarif_ref_inv (fold_left step l d).
+Proof. induction l as [|a l IH]; intros d Hd; cbn; [exact Hd | apply IH, Hstep, Hd]. Qed.
+
+Lemma sarif_ref_inv_sarif r : sarif_ref_inv (sarif r).
+Proof.
+  unfold sarif. apply sarif_ref_inv_fold; [exact sarif_notice_step_inv|].
+  apply sarif_ref_inv_fold; [exact sarif_violation_step_inv|].
+  intros x [].
+Qed.
+
+(* every result of the sarif document points, through ruleIndex, at the rule whose id is its ruleId *)
+Theorem sarif_rule_index_proof : forall r x, In x (sd_results (sarif r)) ->
+  exists i ru, sr_index x = Some (N.of_nat i) /\ nth_error (sd_rules (sarif r)) i = Some ru /\
+               sru_id ru = sr_rule x.
+Proof. intros r x Hx. exact (proj1 (sarif_ref_inv_sarif r x Hx)). Qed.
+
+Theorem sarif_refs_consistent_proof : forall r, sarif_refs_consistent (sarif r) = true.
+Proof.
+  intros r. unfold sarif_refs_consistent. apply forallb_forall. intros x Hx.
+  destruct (sarif_ref_inv_sarif r x Hx) as ((i & ru & Hi & Hn & Hid) & Ha).
+  rewrite Ha, Bool.andb_true_r. unfold sarif_rule_ref_ok. rewrite Hi, Nat2N.id, Hn.
+  apply str_eqb_eq. exact Hid.
+Qed.
+
+(* regression for the class of seed C10-5: the rules re-ordered after the results were created: every
+   ruleId is still right (a reader of ruleId alone sees nothing), the cross-reference is broken *)
+Lemma sarif_reordered_rules_refuted_proof :
+  exists r, positions_well_formed r /\
+            sarif_keys (sarif_rules_reordered (sarif r)) = report_keys r /\
+            sarif_refs_consistent (sarif_rules_reordered (sarif r)) = false.
+Proof.
+  exists (mk_report [mk_violation [117] L_ERROR [97] 1 1; mk_violation [116] L_WARNING [97] 2 1]).
+  split; [|split; vm_compute; reflexivity].
+  intros v [Hv | [Hv | []]]; subst v; right; cbn; split; reflexivity.
+Qed.
+
+Lemma junit_counts_consistent_example :
+  junit_counts_consistent (junit (mk_report [mk_violation [116] L_ERROR [97] 1 1; mk_violation [117] L_WARNING [98] 2 1])) = true.
+Proof. vm_compute. reflexivity. Qed.
+
 Lemma sarif_violation_notice_titles vs : forall d,
   flat_map (fun x => match sr_kind x with Some _ => [sr_rule x] | None => [] end)
            (sd_results (fold_left sarif_violation_step vs d)) =
